@@ -11,7 +11,7 @@
    fsync_ignored_errnos = "descriptor cannot be synced").
    Environment assumption made explicit in [status_of]: an exception that leaves
    main or a thread, or a destructor, ends the process by abort() (SIGABRT). *)
-From PP Require Import Sys.ExitDefs Sys.ExitProofs.
+From PP Require Import Sys.ExitDefs Sys.ExitProofs Sys.ThreadedIODefs Sys.ThreadedIOProofs Sys.WrapperIODefs Sys.WrapperIOProofs.
 Local Open Scope Z_scope.
 
 (* Any util-stream filter tool (any transducer [step]/[fin], any read size), any oracle:
@@ -41,6 +41,83 @@ Theorem C11_script_io_error_nonzero_exit0_all_accepted :
   (st = Exited 0 -> any_failed evs = false /\ forall fd, accepted fd evs = script_writes fd acts).
 Proof. exact script_spec_proof. Qed.
 Print Assumptions C11_script_io_error_nonzero_exit0_all_accepted.
+
+(* util::ReadOrEOF / util::ReadOrThrow (the read loops under ReadCompressed and the WARC reader), any oracle:
+   no fuel error, no abort; ReadOrEOF yields a value iff no call failed, and the value is the concatenation of
+   what the successful reads delivered; ReadOrThrow never returns after a failed call, and when it returns it
+   returns the concatenation of non-empty reads (end of file before the requested amount is an exception) *)
+Theorem C11_read_loops :
+  (forall fd amount orc r evs orc', ReadOrEOF fd amount orc = (r, evs, orc') ->
+     r <> Fuel /\ r <> Abort /\ is_val r = negb (any_failed evs) /\
+     (forall data, r = Val data -> data = concat (delivered fd evs))) /\
+  (forall fd amount orc r evs orc', ReadOrThrow fd amount orc = (r, evs, orc') ->
+     r <> Fuel /\ r <> Abort /\ (any_failed evs = true -> r = Exn) /\
+     (forall data, r = Val data -> any_failed evs = false /\ data = concat (delivered fd evs) /\ ~ In [] (delivered fd evs))).
+Proof.
+  split; intros fd amount orc r evs orc' E.
+  - unfold ReadOrEOF in E. destruct (read_or_eof_spec fd _ _ _ _ _ _ _ (Nat.lt_succ_diag_r _) E) as (H1 & H2 & H3 & H4 & _). auto.
+  - unfold ReadOrThrow in E. destruct (read_or_throw_spec fd _ _ _ _ _ _ _ (Nat.lt_succ_diag_r _) E) as (H1 & H2 & H3 & H4). auto.
+Qed.
+Print Assumptions C11_read_loops.
+
+
+(* One output file of shard, end to end (util/threaded_buffered_stream.hh producer side = C20's
+   stream model, writer thread, ~WriteCompressed, ~FileWriter) for ANY list of lines routed to it and ANY
+   oracle: it terminates; a failed write/fsync/close on the file => the process is killed by SIGABRT
+   (exception in the writer thread or in a destructor); exit 0 => the file received exactly the lines,
+   each followed by a newline.  Assumes the block hand-off between the two threads is an exactly-once
+   FIFO (property C16). *)
+Theorem C11_shard_output_error_nonzero_exit0_all_accepted :
+  forall fd lines orc st evs,
+  threaded_file_run fd lines orc = (st, evs) ->
+  st <> StFuel /\
+  (any_failed evs = true -> st = Signaled SIGABRT) /\
+  (any_failed evs = false -> st = Exited 0) /\
+  (st = Exited 0 -> any_failed evs = false /\ accepted fd evs = file_content lines).
+Proof. exact threaded_file_spec_proof. Qed.
+Print Assumptions C11_shard_output_error_nonzero_exit0_all_accepted.
+
+(* The data paths of cache / foldfilter / b64filter (feeder thread: FileStream on the child's stdin;
+   collector thread: FileStream on fd 1), each thread with its own arbitrary oracle: no fuel error; a failed
+   write/fsync/close in EITHER thread => SIGABRT; exit 0 => the child's stdin accepted every byte fed to it,
+   stdout accepted every byte of every output record, the child ended normally with code 0 and delivered
+   exactly the lines the records needed (b64filter: not one more). *)
+Theorem C11_wrapper_io_error_nonzero_exit0_all_accepted :
+  forall wr fd_child sent records needs child_lines t orc_f orc_c st evf evc,
+  wrapper_io_run wr fd_child sent records needs child_lines t orc_f orc_c = (st, evf, evc) ->
+  st <> StFuel /\
+  (any_failed evf = true \/ any_failed evc = true -> st = Signaled SIGABRT) /\
+  (st = Exited 0 ->
+     any_failed evf = false /\ any_failed evc = false /\
+     accepted fd_child evf = concat sent /\ accepted 1 evc = concat records /\
+     Wait (wstatus t) mod 256 = 0 /\ exists rest, collect needs child_lines = Some rest /\ (wr = B64filter -> rest = 0%nat)).
+Proof. exact wrapper_io_spec_proof. Qed.
+Print Assumptions C11_wrapper_io_error_nonzero_exit0_all_accepted.
+
+(* ... and conversely: no failed call in either thread and the child answered exactly what the records
+   needed => the wrapper's status is Wait's value for the child's wait status; with C11_child_exit_propagates'
+   arithmetic: a child exiting with code c gives status c *)
+Theorem C11_wrapper_io_clean_status :
+  forall wr fd_child sent records needs child_lines rest t orc_f orc_c st evf evc,
+  wrapper_io_run wr fd_child sent records needs child_lines t orc_f orc_c = (st, evf, evc) ->
+  collect needs child_lines = Some rest -> (wr = B64filter -> rest = 0%nat) ->
+  any_failed evf = false -> any_failed evc = false ->
+  st = Exited (Wait (wstatus t) mod 256).
+Proof. exact wrapper_io_clean_proof. Qed.
+Print Assumptions C11_wrapper_io_clean_status.
+
+(* preprocess::Launch, parent side (close-on-exec status pipe), any oracle: an empty command line, a failed read
+   of the status pipe (other than EAGAIN/EINTR, which are retried) or any byte from the child (its execvp failed)
+   => the exception leaves main => SIGABRT; only "end of file on the status pipe" lets the wrapper go on *)
+Theorem C11_launch_failure_nonzero :
+  forall words fd orc after st evs,
+  launch_status words fd orc after = (st, evs) ->
+  ((words = 0%nat /\ launch_checks_command = true) \/ launch_ok evs = false -> st = Signaled SIGABRT) /\
+  (launch_ok evs = true -> st = after).
+Proof. exact launch_spec_proof. Qed.
+Print Assumptions C11_launch_failure_nonzero.
+
+
 
 (* iostream tools, for ANY segmentation of the output into write(2) calls by stdio:
    with the stream-state tests that the four mains contain today (regenerated booleans). *)
@@ -127,6 +204,18 @@ Example C11_nonvacuous_tool_benign :
            [Err EINTR; Ok 2 [97; 98]; Ok 1 [99]; Ok 0 []; Ok 2 []; Err EINTR; Ok 1 []; Err EINVAL] in
   st = Exited 0 /\ accepted 1 evs = [97; 98; 99] /\ any_failed evs = false /\ length evs = 10%nat.
 Proof. vm_compute. repeat split. Qed.
+
+(* shard output: 3 lines; the data write succeeds, the thread's fsync hits EIO: abort although every byte was accepted *)
+Example C11_nonvacuous_shard_output :
+  threaded_file_run 3 [[97]; [98; 99]; []] [Ok 6 []; Err EIO]
+  = (Signaled SIGABRT, [mkEv OpWrite 3 6 [97; 10; 98; 99; 10; 10] (Ok 6 []); mkEv OpFsync 3 0 [] (Err EIO)]).
+Proof. vm_compute. reflexivity. Qed.
+
+(* foldfilter: everything fine except the close of the child's stdin => abort; cache with clean oracles and exit 0 => 0 *)
+Example C11_nonvacuous_wrapper_io :
+  fst (fst (wrapper_io_run Foldfilter 4 [[97; 10]; [98; 10]] [[97; 98; 10]] [2%nat] 2 (TExit 0) [Ok 4 []; Ok 0 []; Ok 0 []; Err EIO] [])) = Signaled SIGABRT /\
+  fst (fst (wrapper_io_run Cache 4 [[97; 10]] [[97; 10]; [97; 10]] [1%nat] 1 (TExit 0) [] [])) = Exited 0.
+Proof. vm_compute. split; reflexivity. Qed.
 
 (* the unchecked iostream main of the original code exits 0 on a failed write (the defect that was fixed) *)
 Example C11_nonvacuous_iostream_unchecked_exits_0 :
